@@ -19,26 +19,32 @@ package statedifflength
 //@   ensures heightErr == result1 && (result1 == nil ==> heightRead == result0)
 // The block to start from: never below the resume checkpoint and never below the oldest block
 // that is still retained (a pruner may have advanced past the checkpoint between two starts).
-//@ ghost var oldestRead uint64
-//@ extern func github.com/NethermindEth/juno/pruner.OldestRetainedBlock
-//@   assigns oldestRead
-//@   ensures result1 == nil ==> result0 == oldestRead
+// pruner.OldestRetainedBlock is a trusted entry point of its own package; pruner.oldestRead
+// records what it answered.
 //@ extern func fmt.Errorf
 //@   ensures result != nil
 //@ func (*Migrator).startBlock
 //@   props C18
 //@   arith int
 //@   requires m != nil
-//@   assigns startRead, oldestRead
+//@   assigns startRead, pruner.oldestRead
 //@   sets startRead = result0
 //@   ensures result2 == nil ==> startRead == result0 && result1 <= result0
-//@   ensures higher_of_checkpoint_and_oldest: result2 == nil ==> result1 == oldestRead && result0 >= m.nextBlock && result0 >= oldestRead && (result0 == m.nextBlock || result0 == oldestRead)
+//@   ensures higher_of_checkpoint_and_oldest: result2 == nil ==> result1 == pruner.oldestRead && result0 >= m.nextBlock && result0 >= pruner.oldestRead && (result0 == m.nextBlock || result0 == pruner.oldestRead)
 //@ func blockRange
 //@   trusted
 //@   logged
 //@ extern func github.com/NethermindEth/juno/migration/semaphore.New
 //@ extern func github.com/NethermindEth/juno/migration/progresslogger.NewBlockProgressTracker
+// The cancel function of the progress logger and the pipeline's wait function touch nothing the
+// contract talks about (assumed).
 //@ extern func github.com/NethermindEth/juno/migration/progresslogger.CallEveryInterval
+//@   ensures effectfree(result)
+//@ extern func github.com/NethermindEth/juno/migration/pipeline.(Pipeline).Run
+//@   ensures effectfree(result1)
+//@ extern func github.com/NethermindEth/juno/migration/pipeline.Source
+//@ extern func github.com/NethermindEth/juno/migration/pipeline.New
+//@ extern func encoding/binary.(bigEndian).PutUint64
 //@ func newIngestor
 //@   trusted
 //@ func newCommitter
@@ -54,6 +60,6 @@ package statedifflength
 //@   nosafe
 //@   modifies *
 //@   modifies maps
-//@   assigns heightRead, heightErr, startRead, oldestRead, calls_blockRange, arg_blockRange_start, arg_blockRange_end, arg_blockRange_next
+//@   assigns heightRead, heightErr, startRead, pruner.oldestRead, calls_blockRange, arg_blockRange_start, arg_blockRange_end, arg_blockRange_next
 //@   callsite blockRange@*: whole_range: start == startRead && end == heightRead
 //@   ensures done_without_work_only_if_nothing_left: result0 == nil && result1 == nil && calls_blockRange == old(calls_blockRange) && heightErr == nil ==> startRead > heightRead
